@@ -537,6 +537,9 @@ func (q *checker) bcheckAssignment(lhs *a.Expr, op t.ID, rhs *a.Expr) error {
 		if !rhs.Effect().Pure() {
 			// No-op.
 
+		} else if lhs.MType().IsNumType() && rhs.Mentions(lhs) {
+			// No-op. After "x = x + 1", "x == x + 1" does not hold.
+
 		} else if lhs.MType().IsNumType() {
 			q.facts.appendBinaryOpFact(t.IDXBinaryEqEq, lhs, rhs)
 
@@ -597,7 +600,7 @@ func (q *checker) bcheckAssignment(lhs *a.Expr, op t.ID, rhs *a.Expr) error {
 				}
 				return x, nil
 			}
-			if xRHS.Mentions(lhs) {
+			if xRHS.Mentions(lhs) || rhs.Mentions(lhs) {
 				return nil, nil
 			}
 			switch op {
